@@ -283,7 +283,79 @@ class TransferScn:
         return None, outcome
 
 
-SCENARIOS = {"alloc": AllocScn, "transfer": TransferScn}
+class CallbackCycleScn:
+    """m conversations on channels whose only receiver is a callback and whose handle was dropped;
+    every ending must deliver the endmarker and forget the callback entry"""
+
+    @staticmethod
+    def scenario(w, P):
+        S = Session(w, P.get("transport", "popen"), "thread")
+
+        def main():
+            import re
+
+            gw = S.open()
+            em = S.proc.execmodel
+            w.exploring = bool(P.get("explore", True))
+
+            def sizes():
+                m = re.search(r"(\d+) active channels", repr(gw))
+                f = getattr(gw, "_channelfactory", None)
+                return (int(m.group(1)) if m else -1, len(getattr(f, "_callbacks", ())) if f is not None else 0)
+
+            base = sizes()
+            ends = []
+            for cyc in range(P["m"]):
+                ev = em.Event()
+                got = []
+
+                def cb(x, ev=ev, got=got):
+                    got.append(x)
+                    if x == "END":
+                        ends.append(cyc)
+                        ev.set()
+                    elif P["end"] == "cb-raises":
+                        raise ValueError("callback failure")
+
+                if P["end"] == "remote-close":
+                    ch = gw.remote_exec("channel.send(1)")
+                elif P["end"] == "cb-raises":
+                    ch = gw.remote_exec("channel.receive()\nchannel.send(1)\ntry:\n    channel.waitclose(5)\nexcept Exception:\n    pass")
+                else:  # remote error
+                    ch = gw.remote_exec("channel.send(1)\nraise KeyError('x')")
+                ch.setcallback(cb, endmarker="END")
+                if P["end"] == "cb-raises":
+                    ch.send("go")
+                del ch
+                if not ev.wait(20):
+                    w.observe("no-endmarker", cyc, list(got))
+            w.exploring = False
+            em.sleep(1.0)
+            S.ctx["sizes"] = (base, sizes())
+            S.ctx["ends"] = len(ends)
+            w.observe("main-done")
+            S.group.terminate(timeout=2.0)
+
+        S.main(main)
+        return S
+
+    @staticmethod
+    def oracle(w, S, P):
+        obs = w.obs
+        sz = S.ctx.get("sizes")
+        outcome = (sz, S.ctx.get("ends"))
+        if ("main-done",) not in obs:
+            return ("c18:hang", f"P={P} blocked={w.blocked_at_end} stderr={w.stderr.getvalue()[-400:]}"), outcome
+        for e in obs:
+            if e[0] == "no-endmarker":
+                return ("c18:dropped-callback-channel-never-ended", f"P={P}: conversation {e[1]} ended but the endmarker never arrived (callback saw {e[2]})"), outcome
+        base, after = sz
+        if after[0] > base[0] or after[1] > base[1]:
+            return ("c18:growth", f"P={P}: channel tables grew from {base} to {after} after {P['m']} finished callback conversations"), outcome
+        return None, outcome
+
+
+SCENARIOS = {"alloc": AllocScn, "transfer": TransferScn, "cbcycle": CallbackCycleScn}
 
 
 def stmt_pred(m, q, l):
@@ -331,6 +403,12 @@ def run(tier: str, only=None) -> int:
                 if shape in ("bare", "nested"):
                     P = {"dir": d, "shape": shape, "end": end, "m": 200 if tier == "quick" else 1000, "explore": False}
                     harness.run_exploration(rep, PID, name + "/m-many", TransferScn, P, {"ps": 0, "free": 0}, max_execs=10, horizon=2000000)
+    for end in ("remote-close", "remote-error", "cb-raises"):
+        name = f"cbcycle/{end}"
+        if only and only not in name:
+            continue
+        harness.run_exploration(rep, PID, name + "/m2", CallbackCycleScn, {"end": end, "m": 2}, {"ps": 1, "free": 0} if tier == "quick" else {"ps": 2, "free": 1}, max_execs=cap)
+        harness.run_exploration(rep, PID, name + "/m-many", CallbackCycleScn, {"end": end, "m": 100 if tier == "quick" else 1000, "explore": False}, {"ps": 0, "free": 0}, max_execs=10, horizon=3000000)
     return rep.finish()
 
 
